@@ -180,14 +180,22 @@ def evaluate_bus(prop, sc, keep=False):
     return out, w, F
 
 
-def profiles_for(prop):
+def profiles_for(prop, tier='quick'):
     if prop in BUS_PROPS:
-        return BUS_PROPS[prop]['profiles']
+        profs = list(BUS_PROPS[prop]['profiles'])
+        if prop == 'C10':
+            profs.append(('timeout_enum', 3 if tier == 'quick' else 6))
+        if tier == 'thorough':
+            # schedule search: every program of every (generic) profile under 16 schedules
+            profs += [('sched:' + p, w) for p, w in BUS_PROPS[prop]['profiles'] if isinstance(gen.PROFILES.get(p), dict)]
+        return profs
     from . import special
     return special.PROFILES[prop]
 
 
 def make_scenario(prop, profile, seed):
+    if profile.startswith('sched:'):
+        return gen.gen_sched(profile.split(':', 1)[1], seed)
     if profile in gen.PROFILES:
         return gen.gen(profile, seed)
     from . import special
